@@ -156,6 +156,11 @@ func main() {
 		for _, name := range w.LemmaOrd {
 			for _, a := range fs.Args() {
 				if strings.HasPrefix(name, a) {
+					if strings.HasPrefix(name, "C04.") && w.Emitted == nil {
+						if err := w.LoadEmitted(); err != nil {
+							fmt.Println("emitted:", err)
+						}
+					}
 					for _, st := range w.Lemmas[name].Steps {
 						if strings.Contains(st.Text, "emitted.") && w.Emitted == nil {
 							if err := w.LoadEmitted(); err != nil {
